@@ -218,7 +218,32 @@ def c03(args):
     return {'reproduced': bool(bad), 'detail': [str(b) for b in bad[:6]]}
 
 
-RECIPES = {'c10': c10, 'c03': c03, 'linear_interp': linear_interp, 'c12': c12, 'c13': c13}
+def c06(args):
+    bad = []
+    # same entropy, same queries -> identical; dyadic mode: history independence
+    for kw in (dict(), dict(levy_area_approximation='space-time'), dict(tol=1e-3, halfway_tree=True), dict(cache_size=1)):
+        a = torchsde.BrownianInterval(0., 1., size=(2, 2), entropy=3, dtype=torch.float64, **kw)
+        b = torchsde.BrownianInterval(0., 1., size=(2, 2), entropy=3, dtype=torch.float64, **kw)
+        for (s_, t_) in [(0.1, 0.4), (0.3, 0.9), (0.1, 0.4), (0., 1.), (0.25, 0.75)]:
+            if not torch.equal(a(s_, t_), b(s_, t_)):
+                bad.append(('same-entropy', kw, s_, t_))
+    w0 = torch.tensor([[0.7, -0.3]], dtype=torch.float64)
+    for hist in ([], [('p', 1.0)], [('p', 0.5), ('p', 0.5)], [('i', 0.1, 0.9)], [('p', 0.25), ('i', 0.5, 1.0)]):
+        t = torchsde.BrownianTree(0., w0, t1=1., entropy=5, tol=1e-6)
+        for h in hist:
+            t(h[1]) if h[0] == 'p' else t(h[1], h[2])
+        fresh = torchsde.BrownianTree(0., w0, t1=1., entropy=5, tol=1e-6)
+        for (s_, t_) in [(0.25, 0.75), (0., 0.5), (0.5, 1.0)]:
+            d = (t(s_, t_) - fresh(s_, t_)).abs().max().item()
+            if d > 1e-12:
+                bad.append(('history-dependence', hist, s_, t_, d))
+        p1, p2 = t(0.5), t(0.5)
+        if not torch.equal(p1, p2):
+            bad.append(('point-query-not-repeatable', hist))
+    return {'reproduced': bool(bad), 'detail': [str(b) for b in bad[:6]]}
+
+
+RECIPES = {'c10': c10, 'c03': c03, 'c06': c06, 'linear_interp': linear_interp, 'c12': c12, 'c13': c13}
 
 if __name__ == '__main__':
     name = sys.argv[1]
